@@ -121,19 +121,23 @@ namespace c14
             LD vx = r2x - r1x, vy = r2y - r1y, p = hypotl(vx, vy), dir = p > 0 ? atan2l(vy, vx) : alpha;
             put(1, m2(alpha - dir), p, m2(dir - beta));
         }
+        // both circles coincide (up to rounding): one arc.  The direction of the centre line is then noise, the word
+        // is the arc alone (every candidate is verified by integration, so offering it is always safe)
+        put(0, m2(beta - alpha), 0, 0);
+        put(1, m2(alpha - beta), 0, 0);
         {  // RSL: inner tangent from the right circle of the start to the left circle of the target
             LD vx = l2x - r1x, vy = l2y - r1y, D2 = vx * vx + vy * vy;
-            if (D2 >= 4)
+            if (D2 >= 4 - 1e-12L)
             {
-                LD p = sqrtl(D2 - 4), dir = atan2l(vy, vx) - atan2l(2, p);
+                LD p = sqrtl(std::max<LD>(0, D2 - 4)), dir = atan2l(vy, vx) - atan2l(2, p);
                 put(2, m2(alpha - dir), p, m2(beta - dir));
             }
         }
         {  // LSR
             LD vx = r2x - l1x, vy = r2y - l1y, D2 = vx * vx + vy * vy;
-            if (D2 >= 4)
+            if (D2 >= 4 - 1e-12L)
             {
-                LD p = sqrtl(D2 - 4), dir = atan2l(vy, vx) + atan2l(2, p);
+                LD p = sqrtl(std::max<LD>(0, D2 - 4)), dir = atan2l(vy, vx) + atan2l(2, p);
                 put(3, m2(dir - alpha), p, m2(dir - beta));
             }
         }
